@@ -10,6 +10,8 @@
 //     -> "<ret> <total_in> <events> <memusage if MEMLIMIT_ERROR else 0> <outhex>"
 //        ret      final lzma_ret of lzma_code (LZMA_BUF_ERROR = the decoder wants more input)
 //        events   comma list of the non-final informational returns (2,3,4) in order, or "-"
+//   redec <pkind> <pflags> <pmode> <phex> <kind> <flags> <memlimit> <fin> <inchunks> <outchunk> <hex>
+//     -> same as dec, but on a lzma_stream that first ran decoder <pkind> on <phex> and was re-initialised without lzma_end()
 //   raw <lc> <lp> <pb> <dict> <usize|u> <allow_eopm> <hex>
 //     -> "<ret> <consumed> <outhex>"   lzma_raw_decoder(LZMA1EXT) on the whole buffer with LZMA_FINISH
 //   enc_alone <lc> <lp> <pb> <dict> <hex>            -> .lzma file from lzma_alone_encoder
@@ -105,6 +107,21 @@ static lzma_ret drive(lzma_stream *strm, const uint8_t *in, size_t n, const char
 	return ret;
 }
 
+// (Re-)initialises strm as the named decoder. Returns LZMA_PROG_ERROR + 100 for an unknown kind.
+static lzma_ret init_kind(lzma_stream *strm, const char *kind, uint32_t flags, uint64_t memlimit)
+{
+	if (!strcmp(kind, "alone")) return lzma_alone_decoder(strm, memlimit);
+	if (!strcmp(kind, "lzip")) return lzma_lzip_decoder(strm, memlimit, flags);
+	if (!strcmp(kind, "auto")) return lzma_auto_decoder(strm, memlimit, flags);
+	if (!strcmp(kind, "xz")) return lzma_stream_decoder(strm, memlimit, flags);
+	if (!strcmp(kind, "xzmt")) {
+		lzma_mt mt = { .flags = flags, .threads = 2, .timeout = 0,
+				.memlimit_threading = memlimit, .memlimit_stop = memlimit };
+		return lzma_stream_decoder_mt(strm, &mt);
+	}
+	return (lzma_ret)(LZMA_PROG_ERROR + 100);
+}
+
 static void print_events(const buf *ev)
 {
 	if (ev->n == 0) { putchar('-'); return; }
@@ -116,24 +133,40 @@ int main(void)
 	hp_line l = {0};
 	while (hp_next(&l)) {
 		const char *op = l.tok[0];
-		if (!strcmp(op, "dec") && l.ntok == 8) {
-			const char *kind = l.tok[1];
-			uint32_t flags = (uint32_t)hp_u64(l.tok[2]);
-			uint64_t memlimit = hp_u64(l.tok[3]);
-			bool fin = hp_u64(l.tok[4]) != 0;
-			size_t outchunk = (size_t)hp_u64(l.tok[6]);
-			size_t n; uint8_t *in = hp_hex(l.tok[7], &n);
+		if ((!strcmp(op, "dec") && l.ntok == 8) || (!strcmp(op, "redec") && l.ntok == 12)) {
+			// redec: the decoder runs on a REUSED lzma_stream: a first decoder (pkind/pflags) is initialised on the handle,
+			// fed <phex> (pmode 0: one lzma_code(LZMA_RUN) call and abandoned where it stands; 1: driven to its final code
+			// with LZMA_FINISH), and then, without lzma_end(), the handle is re-initialised with the decoder under test.
+			// The result must be exactly what a fresh handle gives.
+			const bool reuse = op[0] == 'r';
+			char **t = reuse ? &l.tok[5] : &l.tok[1];
+			const char *kind = t[0];
+			uint32_t flags = (uint32_t)hp_u64(t[1]);
+			uint64_t memlimit = hp_u64(t[2]);
+			bool fin = hp_u64(t[3]) != 0;
+			size_t outchunk = (size_t)hp_u64(t[5]);
+			size_t n; uint8_t *in = hp_hex(t[6], &n);
 			lzma_stream strm = LZMA_STREAM_INIT;
 			lzma_ret r;
-			if (!strcmp(kind, "alone")) r = lzma_alone_decoder(&strm, memlimit);
-			else if (!strcmp(kind, "lzip")) r = lzma_lzip_decoder(&strm, memlimit, flags);
-			else if (!strcmp(kind, "auto")) r = lzma_auto_decoder(&strm, memlimit, flags);
-			else if (!strcmp(kind, "xz")) r = lzma_stream_decoder(&strm, memlimit, flags);
-			else if (!strcmp(kind, "xzmt")) {
-				lzma_mt mt = { .flags = flags, .threads = 2, .timeout = 0,
-						.memlimit_threading = memlimit, .memlimit_stop = memlimit };
-				r = lzma_stream_decoder_mt(&strm, &mt);
-			} else { printf("bad-op\n"); free(in); continue; }
+			if (reuse) {
+				r = init_kind(&strm, l.tok[1], (uint32_t)hp_u64(l.tok[2]), UINT64_C(100) << 20);
+				if (r != LZMA_OK) { printf("prime-init-%u 0 - 0 -\n", (unsigned)r); lzma_end(&strm); free(in); continue; }
+				size_t pn; uint8_t *pin = hp_hex(l.tok[4], &pn);
+				buf pout = {0}, pev = {0};
+				if (hp_u64(l.tok[3]) != 0) {
+					(void)drive(&strm, pin, pn, "w", true, 0, &pout, &pev);
+				} else {
+					uint8_t *ob = malloc(65536);
+					strm.next_in = pin; strm.avail_in = pn;
+					strm.next_out = ob; strm.avail_out = 65536;
+					(void)lzma_code(&strm, LZMA_RUN);
+					free(ob);
+				}
+				free(pout.p); free(pev.p); free(pin);
+				strm.next_in = NULL; strm.avail_in = 0; strm.next_out = NULL; strm.avail_out = 0;
+			}
+			r = init_kind(&strm, kind, flags, memlimit);
+			if (r == LZMA_PROG_ERROR + 100) { printf("bad-op\n"); lzma_end(&strm); free(in); continue; }
 			if (r != LZMA_OK) {
 				printf("init-%u 0 - 0 -\n", (unsigned)r);
 				lzma_end(&strm);
@@ -141,7 +174,7 @@ int main(void)
 				continue;
 			}
 			buf out = {0}, ev = {0};
-			r = drive(&strm, in, n, l.tok[5], fin, outchunk, &out, &ev);
+			r = drive(&strm, in, n, t[4], fin, outchunk, &out, &ev);
 			printf("%u %" PRIu64 " ", (unsigned)r, strm.total_in);
 			print_events(&ev);
 			printf(" %" PRIu64 " ", r == LZMA_MEMLIMIT_ERROR ? lzma_memusage(&strm) : UINT64_C(0));
